@@ -463,25 +463,32 @@ func c05R3(p *core.Prog, r *core.Report) {
 				ok = false
 			}
 		}
-		// offset != 0 edge
-		off := mismatchEdges(fn, func(bo *ssa.BinOp) bool {
-			if !isConstZero(bo.Y) {
-				return false
-			}
-			for _, o := range core.Origins(bo.X, core.SliceOpts{}) {
-				if o.Kind == core.OCall && o.Call == sc && o.Res == 0 {
-					return true
+		// the position reached by the rewind is compared with 0 (as a branch or into a flag that is
+		// branched on later); with that comparison failing, the chunked upload is unreachable
+		ncmp := 0
+		for _, b := range fn.Blocks {
+			for _, in := range b.Instrs {
+				bo, isCmp := in.(*ssa.BinOp)
+				if !isCmp || (bo.Op != token.EQL && bo.Op != token.NEQ) || !isConstZero(bo.Y) {
+					continue
+				}
+				fromSeek := false
+				for _, o := range core.Origins(bo.X, core.SliceOpts{}) {
+					if o.Kind == core.OCall && o.Call == sc && o.Res == 0 {
+						fromSeek = true
+					}
+				}
+				if !fromSeek {
+					continue
+				}
+				ncmp++
+				if (core.Reach{Assume: map[ssa.Value]bool{bo: bo.Op == token.NEQ}}).FromInstr(bo)[chunked] {
+					ok = false
 				}
 			}
-			return false
-		})
-		if len(off) == 0 {
-			ok = false // the position reached by the rewind is not compared with 0
 		}
-		for _, e := range off {
-			if (core.Reach{}).FromEdge(e[0], e[1])[chunked] {
-				ok = false
-			}
+		if ncmp == 0 {
+			ok = false // the position reached by the rewind is not compared with 0
 		}
 		r.Check(ok, rule, fname, "no fall-back after a failed rewind", p.Pos(seek.Pos()), "when the source cannot be rewound to offset 0 the chunked upload (which would send a stream missing its beginning) is unreachable")
 	}
